@@ -93,8 +93,8 @@ type opDef struct {
 	// (oracle 3) is asserted, with relative tolerance relTol3.
 	noRef   bool
 	relTol3 float64
-	// enumOnly: not drawn by the random sub-checks (TriDense.Copy has several
-	// reported defects; keeping it in one sub keeps the known-finding keys few).
+	// enumOnly: not drawn by the random sub-checks and coarse panic keys (unused
+	// since the TriDense.Copy defects were repaired; kept for future findings).
 	enumOnly bool
 	// basicState is the receiver state of the all-basic run of oracle 3 (default
 	// stZero; stSized for operations that need a sized receiver).
@@ -515,10 +515,7 @@ func init() {
 	addOp(&opDef{name: "SymOuterK", recv: rSym, nvars: 2, params: []param{mp(0, 1)}, res: resVars(0, 0), strict: true, big: true,
 		run: func(x *ctx) { x.recv.s.SymOuterK(x.alpha, x.args[0]) },
 		ref: func(x *ctx) (result, bool) { return okRef(rankKRef(nil, x.alpha, x.lg[0])) }})
-	// RankTwo takes its size from the receiver (n := s.mat.N), so an empty
-	// receiver panics (reported finding, key RankTwo/panic for the zero and reset
-	// states); the all-basic run therefore uses a sized receiver.
-	addOp(&opDef{name: "RankTwo", recv: rSym, nvars: 1, params: []param{sp(0), vp(0), vp(0)}, res: resVars(0, 0), strict: true, enumArity: 2, basicState: stSized,
+	addOp(&opDef{name: "RankTwo", recv: rSym, nvars: 1, params: []param{sp(0), vp(0), vp(0)}, res: resVars(0, 0), strict: true, enumArity: 2,
 		run: func(x *ctx) { x.recv.s.RankTwo(x.S(0), x.alpha, x.V(1), x.V(2)) },
 		ref: func(x *ctx) (result, bool) {
 			a, xv, yv := x.lg[0], x.lg[1].v, x.lg[2].v
@@ -610,7 +607,7 @@ func init() {
 		}})
 
 	// ================= TriDense =================
-	addOp(&opDef{name: "TriCopy", recv: rTri, nvars: 3, params: []param{mp(0, 1)}, res: resVars(2, 2), sizedOnly: true, nP: 2, enumP: true, enumOnly: true,
+	addOp(&opDef{name: "TriCopy", recv: rTri, nvars: 3, params: []param{mp(0, 1)}, res: resVars(2, 2), sizedOnly: true, nP: 2, enumP: true,
 		upper: func(x *ctx) bool { return x.p == 0 },
 		run:   func(x *ctx) { r, c := x.recv.t.Copy(x.args[0]); x.ints = []int{r, c} },
 		ref: func(x *ctx) (result, bool) {
@@ -1027,12 +1024,19 @@ func init() {
 			x.or, x.oc = 1, len(s)
 		}})
 	// DiagFrom: the diagonal of any matrix.
-	addOp(&opDef{name: "DiagFrom", recv: rNone, nvars: 2, params: []param{mp(0, 1)}, nP: 2,
+	addOp(&opDef{name: "DiagFrom", recv: rNone, nvars: 2, params: []param{mp(0, 1)}, nP: 3,
 		run: func(x *ctx) {
 			n := min(x.d[0], x.d[1])
 			var d *mat.DiagDense
 			if x.p == 0 {
 				d = &mat.DiagDense{}
+			} else if x.p == 2 {
+				// a strided receiver: the diagonal view of a Dense full of garbage
+				g := make([]float64, n*(n+1))
+				for i := range g {
+					g[i] = math.NaN()
+				}
+				d = mat.NewDense(n, n+1, g).DiagView().(*mat.DiagDense)
 			} else {
 				g := make([]float64, n)
 				for i := range g {
